@@ -290,6 +290,7 @@ static int pump_reg(struct rthr *th, int id)
 	simk_fd_mark(px->fout.fd, SIMK_FDM_SHORT | SIMK_FDM_FAULT);
 	o->registered = 1;
 	o->xi[0] = 1;
+	memset(&px->p, 0xA5, sizeof(px->p));	/* as handed over by an application that does not zero its memory */
 	IV_FD_PUMP_INIT(&px->p);
 	px->p.from_fd = px->fin.fd;
 	px->p.to_fd = px->fout.fd;
